@@ -52,6 +52,25 @@ type Contract struct {
 	GhostExit  []GhostAssign // ghost assignments performed at every normal exit
 	Opaque     map[string]bool // predicates kept as atoms inside this function\'s proof (opaque / reveal)
 	Asserts    []AssertClause // mid-function assertions (proved, then assumed) after the k-th call of a callee
+	Hybrid     bool
+	Ghosts     []GhostVar
+	GhostUpd   []GhostUpdate
+}
+
+// GhostVar is a ghost local of the function under proof (spec-only state); GhostUpdate assigns it
+// right after the k-th call (static order) of a callee or builtin.
+type GhostVar struct {
+	Name string
+	Type string
+	Init *Expr
+}
+
+type GhostUpdate struct {
+	Callee string
+	K      int
+	Name   string
+	Value  *Expr
+	Src    string
 }
 
 type AssertClause struct {
@@ -115,7 +134,7 @@ const modulePath = "github.com/streamingfast/substreams"
 var tagRe = regexp.MustCompile(`\[(C[0-9]+(?:,\s*C[0-9]+)*)\]`)
 
 var clauseKeywords = map[string]bool{"requires": true, "ensures": true, "xensures": true, "panics_if": true, "modifies": true,
-	"loop": true, "arith": true, "trusted": true, "inline": true, "nosafety": true, "pure": true, "fresh": true, "assume": true, "ghost_exit": true, "opaque": true, "assert": true}
+	"loop": true, "arith": true, "trusted": true, "inline": true, "nosafety": true, "pure": true, "fresh": true, "assume": true, "ghost_exit": true, "opaque": true, "assert": true, "ghost": true, "quantifiers": true}
 
 var topKeywords = map[string]bool{"ghostfield": true, "func": true, "spec": true, "pred": true, "lemma": true, "purepkg": true, "const": true, "uninterp": true}
 
@@ -391,6 +410,26 @@ func (c *Contract) addClause(p rawLine, path string) error {
 		for _, n := range strings.FieldsFunc(rest, func(r rune) bool { return r == ',' || r == ' ' }) {
 			c.Opaque[n] = true
 		}
+	case "ghost":
+		if m := regexp.MustCompile(`^after\s+([A-Za-z0-9_.$]+)(?:#([0-9]+))?\s*:\s*([A-Za-z_][A-Za-z0-9_]*)\s*:=\s*(.*)$`).FindStringSubmatch(rest); m != nil {
+			k := 0
+			if m[2] != "" {
+				k, _ = strconv.Atoi(m[2])
+			}
+			v, err := ParseExpr(strings.TrimSpace(m[4]))
+			if err != nil {
+				return err
+			}
+			c.GhostUpd = append(c.GhostUpd, GhostUpdate{Callee: m[1], K: k, Name: m[3], Value: v, Src: rest})
+		} else if m := regexp.MustCompile(`^([A-Za-z_][A-Za-z0-9_]*)\s+([^=]+?)\s*:=\s*(.*)$`).FindStringSubmatch(rest); m != nil {
+			v, err := ParseExpr(strings.TrimSpace(m[3]))
+			if err != nil {
+				return err
+			}
+			c.Ghosts = append(c.Ghosts, GhostVar{Name: m[1], Type: m[2], Init: v})
+		} else {
+			return fmt.Errorf("ghost clause: want 'ghost <name> <type> := <expr>' or 'ghost after <callee>[#k]: <name> := <expr>'")
+		}
 	case "ghost_exit":
 		i := strings.Index(rest, ":=")
 		if i < 0 {
@@ -406,10 +445,17 @@ func (c *Contract) addClause(p rawLine, path string) error {
 		}
 		c.GhostExit = append(c.GhostExit, GhostAssign{Target: t, Value: v, Src: rest})
 	case "arith":
-		if rest != "wrapping" && rest != "checked" {
-			return fmt.Errorf("arith pragma must be wrapping or checked")
+		if rest != "wrapping" && rest != "checked" && rest != "mathematical" {
+			return fmt.Errorf("arith pragma must be wrapping, checked or mathematical")
 		}
 		c.Arith = rest
+	case "quantifiers":
+		// quantifiers solver: flat universal hypotheses are handed to the solver (E-matching) before
+		// the generator-instantiated script is tried
+		if rest != "solver" {
+			return fmt.Errorf("quantifiers pragma: want 'quantifiers solver'")
+		}
+		c.Hybrid = true
 	case "trusted":
 		c.Trusted = true
 	case "inline":
